@@ -152,6 +152,9 @@ func classes() []class {
 		{"replication-0", pb.Dataset{Dimension: 4, PartitionCount: 2, ReplicationFactor: 0}},
 		{"dimension-0", pb.Dataset{Dimension: 0, PartitionCount: 1, ReplicationFactor: 1}},
 		{"unknown-space", pb.Dataset{Dimension: 4, PartitionCount: 1, ReplicationFactor: 1, Space: pb.Space(7)}},
+		{"unknown-space-first-past-the-enum", pb.Dataset{Dimension: 4, PartitionCount: 1, ReplicationFactor: 1, Space: pb.Space(len(pb.Space_name))}},
+		{"unknown-space-negative", pb.Dataset{Dimension: 4, PartitionCount: 1, ReplicationFactor: 1, Space: pb.Space(-1)}},
+		{"unknown-space-max", pb.Dataset{Dimension: 4, PartitionCount: 1, ReplicationFactor: 1, Space: pb.Space(2147483647)}},
 		{"partition-count-5000", pb.Dataset{Dimension: 4, PartitionCount: 5000, ReplicationFactor: 1}},
 		{"replication-1000", pb.Dataset{Dimension: 4, PartitionCount: 1, ReplicationFactor: 1000}},
 		{"dimension-2^31", pb.Dataset{Dimension: 1 << 31, PartitionCount: 1, ReplicationFactor: 1}},
@@ -171,7 +174,12 @@ func classes() []class {
 				dim = 8
 			}
 			v := make([]float32, dim)
+			for i := range v {
+				v[i] = float32(i + 1)
+			}
 			e.data.Insert(c, &pb.InsertRequest{DatasetId: d.Id, Id: hx.Id(7).Bytes(), Value: v})
+			e.data.Insert(c, &pb.InsertRequest{DatasetId: d.Id, Id: hx.Id(9).Bytes(), Value: v})
+			e.data.Insert(c, &pb.InsertRequest{DatasetId: d.Id, Id: hx.Id(10).Bytes(), Value: v})
 			e.data.BatchInsert(c, &pb.BatchRequest{DatasetId: d.Id, Items: []*pb.BatchItem{{Id: hx.Id(8).Bytes(), Value: v}}})
 			drain(e.srch.Search(c, &pb.SearchRequest{DatasetId: d.Id, Query: v, K: 3}))
 			e.dm.GetDatasetSize(c, &pb.GetDatasetRequest{DatasetId: d.Id})
@@ -344,10 +352,7 @@ func TestC12(t *testing.T) {
 	var mine []int
 	rng := rec.Rand("c12", 0)
 	perm := rng.Perm(len(cs))
-	take := len(cs)
-	if rec.Quick() {
-		take = len(cs) / 3
-	}
+	take := len(cs) // both tiers run every class; thorough repeats them on 3-node clusters (see below)
 	for i, ci := range perm[:take] {
 		if rec.Mine(i) {
 			mine = append(mine, ci)
